@@ -3270,6 +3270,9 @@ static Type *union_decl(Token **rest, Token *tok) {
     if (ty->size < mem->ty->size)
       ty->size = mem->ty->size;
   }
+  // The size is an int, as the size of a struct is.
+  if (align_to64(ty->size, ty->align) > INT32_MAX)
+    error_tok(tok, "union is too large");
   ty->size = align_to(ty->size, ty->align);
   return ty;
 }
